@@ -14,7 +14,8 @@
                     (see its definition: cut before GO / fault before finally / fault in finally
                     with (i) other restores still run, (ii) nothing diverted, (iii) restartable) *)
 From Coq Require Import String List NArith ZArith Ascii Bool Arith.
-From SV Require Import Lib.Bytes Model.FwLife Model.FwLifeSpec Proofs.FwLife_lemmas Proofs.FwLife_general.
+From SV Require Import Lib.Bytes Model.FwLife Model.FwLifeSpec Proofs.FwLife_lemmas Proofs.FwLife_general
+  Proofs.FwLife_gen_owner.
 From SV Require Import Model.FwLog Proofs.FwLog_lemmas.
 Import ListNotations.
 
@@ -134,16 +135,14 @@ Proof.
 Qed.
 Print Assumptions c04_samples_all_exits.
 
-(* What is NOT proved in general (kept as a statement only):
-   (a) nat with --user/--group (the owner MARK rule in the mangle table): every exit EXCEPT a
-       failing tear-down `-t mangle -D OUTPUT ... MARK`, which is finding F41 (c04_nat_owner_refuted);
-       covered only by the finite sweep c04_nat_owner_all_exits_partial below;
-   (b) pf (c04_pf_identity_full further down).
-   The iptables/nft model has no other gap: the hypotheses above (well-formed kernel, body rules
-   in own chains, tproxy's chain order) are necessary for the statement as it stands. *)
-Definition is_mark_delete (x : cmd) : bool :=
-  match x with Ipt _ TMangle (IDelete _ _) => true | _ => false end.
-Definition c04_all_exits_full : Prop :=
+(* nat WITH --user/--group (Proofs/FwLife_gen_owner.v): the own objects are those of the nat table plus
+   the owner MARK rule at the head of mangle/OUTPUT (nat.py:39-44).  Every plan body, every clean
+   well-formed start state, every cut and every failing command index k EXCEPT the one case that is
+   finding F41: k inside the finally block and the k-th command is the tear-down's
+   `-t mangle -D OUTPUT ... MARK` (is_mark_delete) — then the MARK rule stays for good
+   (c04_nat_owner_refuted).  A failing chain listing (F42) is NOT excluded: sess_ok itself only excuses
+   clause (ii) for it.  This was the open `Definition c04_all_exits_full`; it is now a theorem. *)
+Theorem c04_all_exits_full :
   forall c s0 k cut,
     c_method c = MNat -> c_owner c <> None -> c_udp c = false -> cfg_wf c = true ->
     (forall f, nospace (fc_port (fcfg c f)) = true) ->
@@ -151,6 +150,37 @@ Definition c04_all_exits_full : Prop :=
     (let r := session c cut (fault_at k) s0 in
      Nat.leb (r_fin_at r) k && match nth_cmd k (r_events r) with Some x => is_mark_delete x | None => false end = false) ->
     sess_ok c s0 k cut = true.
+Proof.
+  intros c s0 k cut Hm Ho Hu Hw Hn He Hk Hx. destruct (c_owner c) as [own|] eqn:O; [|contradiction].
+  exact (nat_owner_all_exits c own Hm O Hu Hw Hn s0 He Hk k cut Hx).
+Qed.
+Print Assumptions c04_all_exits_full.
+
+(* the same, spelled for a failing command that is known not to be the MARK deletion *)
+Corollary c04_nat_owner_all_exits : forall c s0 k cut,
+  c_method c = MNat -> c_owner c <> None -> c_udp c = false -> cfg_wf c = true ->
+  (forall f, nospace (fc_port (fcfg c f)) = true) ->
+  erase c s0 = s0 -> kst_wf s0 = true ->
+  (forall x, nth_cmd k (r_events (session c cut (fault_at k) s0)) = Some x -> is_mark_delete x = false) ->
+  sess_ok c s0 k cut = true.
+Proof.
+  intros c s0 k cut Hm Ho Hu Hw Hn He Hk Hx. apply c04_all_exits_full; try assumption.
+  cbv zeta. apply andb_false_iff. right.
+  destruct (nth_cmd k (r_events (session c cut (fault_at k) s0))) as [x|] eqn:E; [apply Hx; reflexivity | reflexivity].
+Qed.
+Print Assumptions c04_nat_owner_all_exits.
+
+(* non-vacuity: the --user sample plan satisfies the hypotheses; the excluded case is exactly
+   k = 21 / 27 for it (the two families' MARK deletions), every other k is covered for every cut *)
+Example c04_owner_hyps_satisfiable :
+  cfg_wf cfg_nat_user = true /\ c_owner cfg_nat_user <> None /\ erase cfg_nat_user ex_state = ex_state /\
+  option_map is_mark_delete (nth_cmd 21 (r_events (session cfg_nat_user (full_cut cfg_nat_user) (fault_at 21) ex_state))) = Some true /\
+  option_map is_mark_delete (nth_cmd 22 (r_events (session cfg_nat_user (full_cut cfg_nat_user) (fault_at 22) ex_state))) = Some false.
+Proof. vm_compute. repeat split; discriminate. Qed.
+
+(* What is NOT proved in general: pf (c04_pf_identity_full further down).  The iptables/nft model has
+   no other gap: the hypotheses above (well-formed kernel, body rules in own chains, tproxy's chain
+   order, the F41 command excluded) are necessary for the statement as it stands. *)
 
 (* The earlier finite sweeps (sample plans on port 1230, IPv6+IPv4, from a kernel with foreign
    rules, a foreign chain and a complete second instance on port 12300, and from an empty kernel;
